@@ -100,6 +100,13 @@ def rand_table(rng, ccard, P, mode):
             col = common.rand_column(rng, ccard)
         elif mode == "zerocol" and rng.random() < 0.3:
             col = [Fraction(0)] * ccard
+        elif mode == "typed":   # typed with 2-3 decimals: the column sum is within 0.01 of one but not one
+            dec = rng.choice([100, 1000])
+            base = common.rand_column(rng, ccard)
+            col = [Fraction(int(x * dec), dec) for x in base]           # truncated to 2-3 decimals
+            im = max(range(ccard), key=lambda t: col[t])
+            col[im] += (1 - sum(col)) + Fraction(rng.choice([-1, 1]) * rng.randint(1, 8), 1000)   # sum = 1 +- 0.001..0.008
+            col = [Fraction(float(x)) for x in col]
         elif mode == "mag":     # one power-of-two scale per column (denormals ... 2^990), no zeros, integer mantissas
             e = rng.choice([-1070, -1000, -300, -60, -1, 0, 53, 60, 300, 990])
             col = [Fraction(rng.randint(1, 12)) * (Fraction(2) ** e) for _ in range(ccard)]
@@ -134,7 +141,7 @@ def rand_state_names(rng, nvars, cards, style):
             s = list(range(c))
             rng.shuffle(s)
             if rng.random() < 0.3:
-                sh = rng.randint(1, 3)
+                sh = rng.choice([1, 2, 3, 300, 70000])
                 s = [x + sh for x in s]
         elif style == "str":
             s = ["s%d_%d" % (v, i) for i in range(c)]
@@ -162,14 +169,14 @@ def unfr(p):
 def gen_cpd(rng, kmax=4):
     k = rng.choice([0, 1, 2, 2, 3, 3, 4][: 3 + kmax])
     ccard, pc = rand_cards(rng, k)
-    mode = rng.choice(["norm", "free", "free", "zerocol", "mag", "near", "skew"])
+    mode = rng.choice(["norm", "free", "free", "zerocol", "mag", "near", "skew", "typed"])
     if mode == "mag" and k > 2:
         k = 2
         pc = pc[:2]
     P = math.prod(pc)
     rows = rand_table(rng, ccard, P, mode)
     style = rng.choice(STYLES)
-    vstyle = rng.choice(["str", "str", "int", "mixed", "tricky"])
+    vstyle = rng.choice(["str", "str", "int", "mixed", "tricky", "long"])
     sn = rand_state_names(rng, k + 1, [ccard] + pc, style)
     return {"k": k, "ccard": ccard, "pc": pc, "rows": [[fr(x) for x in r] for r in rows], "mode": mode,
             "style": style, "vstyle": vstyle, "sn": sn, "nameseed": rng.randint(0, 10 ** 9),
@@ -302,19 +309,33 @@ def gen_bn(rng, nmax):
             newc = rng.choice([x for x in [1, 2, 3, 4] if x != c["pc"][i]])
             c["pc"][i] = newc
             u = c["pa"][i]
-            if sn is not None:  # the child's own list for that parent has the (wrong) declared length
-                base = list(sn[u])
-                extra = ["x%d" % t for t in range(4)]
-                c["sn_over"][str(u)] = (base + extra)[:newc]
-            applied = fault
+            base = list(sn[u]) if sn is not None else list(range(cards[u]))
+            declared = (base + ["x%d" % t for t in range(4)])[:newc]
+            how = rng.choice(["default-or-declared-length", "declared-length", "parents-own-list", "parent-carries-declared-list"])
+            if how == "default-or-declared-length":
+                if sn is not None:      # the child's own list for that parent has the (wrong) declared length
+                    c["sn_over"][str(u)] = declared
+            elif how == "declared-length":
+                c["sn_over"][str(u)] = declared
+            elif how == "parents-own-list":     # e.g. one shared state_names dict handed to every CPD
+                c["sn_over"][str(u)] = base
+            elif any(d["v"] == u for d in cpds):   # the parent's own CPD carries a list of the declared (wrong) length too
+                c["sn_over"][str(u)] = declared
+                by_v[u]["sn_over"][str(u)] = declared
+            applied = fault + ":" + how
     elif fault == "sn_mismatch":
         cand = [i for i, u in enumerate(c["pa"]) if cards[u] >= 1]
         if cand:
             i = rng.choice(cand)
             u = c["pa"][i]
             base = list(sn[u]) if sn is not None else list(range(cards[u]))
-            if cards[u] >= 2 and rng.random() < 0.5:
+            r_ = rng.random()
+            if cards[u] >= 2 and r_ < 0.35:
                 alt = base[1:] + base[:1]
+            elif r_ < 0.55:
+                alt = base + ["one-more"]          # same cardinality declared, a list of another length
+            elif r_ < 0.7:
+                alt = base[:-1]
             else:
                 alt = ["m%d" % t for t in range(cards[u])]
             c["sn_over"][str(u)] = alt
@@ -326,12 +347,14 @@ def gen_bn(rng, nmax):
     # tables
     for d in cpds:
         P = math.prod(d["pc"])
-        rows = rand_table(rng, d["card"], P, rng.choice(["norm", "norm", "skew"]))
+        rows = rand_table(rng, d["card"], P, rng.choice(["norm", "norm", "skew", "typed"]))
         d["rows"] = rows
     if fault in ("sum_out", "sum_in") and cpds:
         d = by_v[target]
         P = math.prod(d["pc"])
         j = rng.randrange(P)
+        for t, x in enumerate(common.rand_column(rng, d["card"])):     # the faulted column starts exactly normalised
+            d["rows"][t][j] = x
         margin = rng.choice([Fraction(1, 10 ** 6), Fraction(1, 10 ** 4), Fraction(1, 10 ** 2)])
         side = rng.choice([-1, 1])
         if fault == "sum_in":
@@ -363,7 +386,7 @@ def gen_bn(rng, nmax):
     for d in cpds:
         d["rows"] = [[fr(x) for x in r] for r in d["rows"]]
     return {"n": n, "nodes": nodes, "edges": edges, "cards": cards, "style": style, "sn": sn, "fault": applied,
-            "cpds": cpds, "vstyle": rng.choice(["str", "str", "int", "mixed", "tricky"]), "nameseed": rng.randint(0, 10 ** 9),
+            "cpds": cpds, "vstyle": rng.choice(["str", "str", "int", "mixed", "tricky", "long"]), "nameseed": rng.randint(0, 10 ** 9),
             "qseed": rng.randint(0, 10 ** 9)}
 
 
@@ -382,7 +405,7 @@ def gen_wide(rng):
     style = rng.choice(STYLES)
     sn = rand_state_names(rng, k + 1, [ccard] + pc, style)
     return {"k": k, "ccard": ccard, "pc": pc, "rows": [[fr(x) for x in r] for r in rows], "mode": mode,
-            "style": style, "vstyle": rng.choice(["str", "int", "mixed", "tricky"]), "sn": sn,
+            "style": style, "vstyle": rng.choice(["str", "int", "mixed", "tricky", "long"]), "sn": sn,
             "nameseed": rng.randint(0, 10 ** 9), "qseed": rng.randint(0, 10 ** 9)}
 
 
@@ -419,9 +442,14 @@ def gen_widebn(rng):
         u = c["pa"][i]
         newc = rng.choice([x for x in [1, 2, 3] if x != c["pc"][i]])
         c["pc"][i] = newc
-        if sn is not None:
-            c["sn_over"][str(u)] = (list(sn[u]) + ["x%d" % t for t in range(4)])[:newc]
-        applied = fault
+        base = list(sn[u]) if sn is not None else list(range(cards[u]))
+        if rng.random() < 0.5:
+            c["sn_over"][str(u)] = base                                   # the parent's own list
+            applied = fault + ":parents-own-list"
+        else:
+            if sn is not None:
+                c["sn_over"][str(u)] = (base + ["x%d" % t for t in range(4)])[:newc]
+            applied = fault + ":default-or-declared-length"
     elif fault == "sn_mismatch":
         u = rng.choice(c["pa"])
         c["sn_over"][str(u)] = ["m%d" % t for t in range(cards[u])]
@@ -434,6 +462,67 @@ def gen_widebn(rng):
         d["rows"] = [[fr(x) for x in r] for r in rand_table(rng, d["card"], math.prod(d["pc"]), "norm")]
     return {"n": n, "nodes": nodes, "edges": edges, "cards": cards, "style": style, "sn": sn, "fault": applied,
             "cpds": cpds, "vstyle": rng.choice(["str", "int", "mixed", "tricky"]), "nameseed": rng.randint(0, 10 ** 9),
+            "qseed": rng.randint(0, 10 ** 9)}
+
+
+def gen_big(rng):
+    """a variable with more than 256 states (child or parent)"""
+    big = rng.choice([257, 300])
+    if rng.random() < 0.5:
+        ccard, pc = big, ([2] if rng.random() < 0.5 else [])
+    else:
+        ccard, pc = 2, [big] + ([2] if rng.random() < 0.4 else [])
+    k = len(pc)
+    rows = rand_table(rng, ccard, math.prod(pc), rng.choice(["norm", "free"]))
+    style = rng.choice(["default", "intperm", "str"])
+    sn = rand_state_names(rng, k + 1, [ccard] + pc, style)
+    return {"k": k, "ccard": ccard, "pc": pc, "rows": [[fr(x) for x in r] for r in rows], "mode": "big",
+            "style": style, "vstyle": rng.choice(["str", "int", "long"]), "sn": sn, "nameseed": rng.randint(0, 10 ** 9),
+            "qseed": rng.randint(0, 10 ** 9)}
+
+
+def gen_midbn(rng):
+    """chains / trees with 9 or 12 nodes (sizes = 1 mod 8, more than 8 families), binary with one ternary node"""
+    n = rng.choice([9, 9, 12])
+    cards = [2] * n
+    cards[rng.randrange(n)] = 3
+    perm = list(range(n))
+    rng.shuffle(perm)
+    chain = rng.random() < 0.5
+    edges = [[perm[i - 1] if chain else perm[rng.randrange(i)], perm[i]] for i in range(1, n)]
+    rng.shuffle(edges)
+    nodes = list(range(n))
+    rng.shuffle(nodes)
+    style = rng.choice(STYLES)
+    sn = rand_state_names(rng, n, cards, style)
+    cpds = []
+    for v in rng.sample(range(n), n):
+        pa = [u for (u, w) in edges if w == v]
+        cpds.append({"v": v, "pa": pa, "pc": [cards[u] for u in pa], "card": cards[v], "sn_over": {}, "sn_keys": None})
+    fault = rng.choice(["none", "none", "wrong_card", "sum_in"])
+    applied = "none"
+    withpa = [d for d in cpds if d["pa"]]
+    for d in cpds:
+        d["rows"] = rand_table(rng, d["card"], math.prod(d["pc"]), rng.choice(["norm", "typed"]))
+    if fault == "wrong_card" and withpa:
+        c = rng.choice(withpa)
+        u = c["pa"][0]
+        c["pc"][0] = cards[u] + 1
+        c["sn_over"][str(u)] = list(sn[u]) if sn is not None else list(range(cards[u]))     # the parent's own list
+        c["rows"] = rand_table(rng, c["card"], math.prod(c["pc"]), "norm")
+        applied = "wrong_card:parents-own-list"
+    elif fault == "sum_in":
+        d = rng.choice(cpds)
+        j = rng.randrange(math.prod(d["pc"]))
+        for t, x in enumerate(common.rand_column(rng, d["card"])):
+            d["rows"][t][j] = x
+        i = max(range(d["card"]), key=lambda t: d["rows"][t][j])
+        d["rows"][i][j] += dy(rng.choice([-1, 1]) * Fraction(1, 250))
+        applied = "sum_in"
+    for d in cpds:
+        d["rows"] = [[fr(x) for x in r] for r in d["rows"]]
+    return {"n": n, "nodes": nodes, "edges": edges, "cards": cards, "style": style, "sn": sn, "fault": applied,
+            "cpds": cpds, "vstyle": rng.choice(["str", "int", "mixed", "tricky", "long"]), "nameseed": rng.randint(0, 10 ** 9),
             "qseed": rng.randint(0, 10 ** 9)}
 
 
@@ -465,6 +554,14 @@ def cases(tier, seed):
     for _ in range(14 if tier == "quick" else 150):
         c = gen_widebn(rng)
         c["kind"] = "bn"
+        out.append(c)
+    for _ in range(8 if tier == "quick" else 80):
+        c = gen_midbn(rng)
+        c["kind"] = "bn"
+        out.append(c)
+    for _ in range(8 if tier == "quick" else 80):
+        c = gen_big(rng)
+        c["kind"] = "session"
         out.append(c)
     nsess, nbns = (110, 110) if tier == "quick" else (1200, 1200)
     for _ in range(nsess):
@@ -506,9 +603,13 @@ class Names:
         self.stab = {}
 
     def var(self, nm):
+        if hasattr(nm, "item") and not hasattr(nm, "detach"):   # numpy scalar (np.str_, np.int64) from an ndarray argument
+            nm = nm.item()
         return self.vidx[repr(nm)]
 
     def st(self, s):
+        if hasattr(s, "item") and not hasattr(s, "detach"):
+            s = s.item()
         if isinstance(s, int) and not isinstance(s, bool) and 0 <= s < BIG:
             return int(s)
         r = repr(s)
@@ -517,8 +618,41 @@ class Names:
         return self.stab[r]
 
 
+def rb(x):
+    """an equal but not identical object: strings / ints / tuples rebuilt at run time (`is` instead of `==` shows)"""
+    if isinstance(x, bool):
+        return x
+    if isinstance(x, str):
+        return "".join(list(x)) if len(x) > 1 else x
+    if isinstance(x, int):
+        return int(str(x))
+    if isinstance(x, tuple):
+        return tuple(rb(y) for y in x)
+    if isinstance(x, list):
+        return [rb(y) for y in x]
+    return x
+
+
+def wrap(lst, how, names=None):
+    """the same argument as another documented container type (an ndarray of names only when every variable name of
+    the object is a string: numpy compares a tuple / int name with a string array elementwise)"""
+    import numpy as np
+    if how == "tuple":
+        return tuple(lst)
+    if how == "ndarray" and lst and all(isinstance(x, str) for x in (list(names) if names is not None else lst)):
+        return np.array(lst)
+    if how == "set":
+        return set(lst)
+    return list(lst)
+
+
 def var_names(case, n):
     rng = random.Random(case["nameseed"])
+    if case["vstyle"] == "long":     # long strings, ints above 256, tuples: never interned / cached by CPython
+        pool = ["var_alpha", "var_alpha10", "node-%d" % 1000, 1000, 257, 70000, ("t", 300), ("t", "uu"), "weather_state",
+                "x" * 40, 4096, ("deep", ("er", 1)), "Var_Alpha", "var alpha", 300, "300"]
+        rng.shuffle(pool)
+        return pool[:n]
     if case["vstyle"] == "tricky":   # substrings of each other, format keywords, falsy names, 0 vs "0"
         pool = ["x1", "x10", "x", "x11", "G", "G2", "x1_0", "variable", "state", "values", "", 0, "0", "x_1", "phi", "None"]
         rng.shuffle(pool)
@@ -532,16 +666,23 @@ def ctor_args(N, v, card, rows, ev, ec, sn_py):
     return [v, card, rows, list(ev), list(ec), sn]
 
 
-def make_impl(N, v, card, rows, ev, ec, sn_py, none_ev=False):
+def make_impl(N, v, card, rows, ev, ec, sn_py, none_ev=False, cont=None):
+    """cont: hand evidence / evidence_card / values / state-name lists over as tuples or ndarrays instead of lists"""
     from pgmpy.factors.discrete import TabularCPD
+    import numpy as np
     vn = N.varnames
     vals = [[float(x) for x in r] for r in rows]
     kw = {}
     if sn_py:
-        kw["state_names"] = {vn[u]: list(lst) for u, lst in sn_py.items()}
+        kw["state_names"] = {vn[u]: (tuple(lst) if cont == "tuple" else list(lst)) for u, lst in sn_py.items()}
     if none_ev and not ev:
         return TabularCPD(vn[v], card, vals, **kw)
-    return TabularCPD(vn[v], card, vals, evidence=[vn[u] for u in ev], evidence_card=list(ec), **kw)
+    evl, ecl = [vn[u] for u in ev], list(ec)
+    if cont == "tuple":
+        evl, ecl, vals = tuple(evl), tuple(ecl), tuple(tuple(r) for r in vals)
+    elif cont == "ndarray":
+        evl, ecl = wrap(evl, "ndarray", vn), np.array(ecl, dtype=int)
+    return TabularCPD(vn[v], card, vals, evidence=evl, evidence_card=ecl, **kw)
 
 
 def make_impl_arr(N, v, card, arr, ev, ec, sn_py):
@@ -1060,7 +1201,7 @@ def run_cpd(case, drv):
     for perm in perms:
         for inplace in (True, False):
             c2 = fresh()
-            r = call_impl(lambda: c2.reorder_parents([vn[u] for u in perm], inplace=inplace))
+            r = call_impl(lambda: c2.reorder_parents(rb([vn[u] for u in perm]), inplace=inplace))
             st, mr = drv.call_e("c05_reorder", [args, list(perm), inplace])
             if not same_outcome(r, st, mr):
                 return bad("impl!=model:reorder-outcome", {"perm": perm, "inplace": inplace, "impl": r[0:1] + ((r[1],) if r[0] == "err" else ()), "model": [st, mr if st == "err" else None]})
@@ -1104,7 +1245,7 @@ def run_cpd(case, drv):
             rng.shuffle(X)
             for inplace in (True, False):
                 c2 = fresh()
-                r = call_impl(lambda: c2.marginalize([vn[u] for u in X], inplace=inplace))
+                r = call_impl(lambda: c2.marginalize(wrap(rb([vn[u] for u in X]), ["list", "tuple", "ndarray", "set"][len(X) % 4], vn), inplace=inplace))
                 st, mr = drv.call_e("c05_marginalize", [args, X])
                 if not same_outcome(r, st, mr):
                     return bad("impl!=model:marginalize-outcome", {"X": X, "impl": r[0], "model": [st, mr if st == "err" else None]})
@@ -1141,7 +1282,9 @@ def run_cpd(case, drv):
             # reduce by state name
             for rep in range(2):
                 states = [rng.randrange(pc[u - 1]) for u in X]
-                vals_py = [(vn[u], esn[u][s]) for u, s in zip(X, states)]
+                vals_py = rb([(vn[u], esn[u][s]) for u, s in zip(X, states)])
+                if rep:
+                    vals_py = tuple(vals_py)
                 vals_m = [[u, N.st(esn[u][s])] for u, s in zip(X, states)]
                 inplace = bool(rep)
                 c2 = fresh()
@@ -1527,6 +1670,8 @@ def run_bn(case, drv):
            "sum_in": [0], "nan_entry": [4], "inf_entry": [4], "nan_normalized": [4], "neg_sum1": [0]}.get(case["fault"].split(":")[0])
     if case["fault"].startswith("wrong_parents"):
         exp = [2]
+    if case["fault"] == "wrong_card:parent-carries-declared-list":
+        exp = [5, 6]      # another child of that parent may be met first (its names then differ)
     if exp is not None and code not in exp:
         return bad("model!=expected-fault-class", {"fault": case["fault"], "model": CM_NAMES[code]})
     # get_cardinality
@@ -1536,7 +1681,7 @@ def run_bn(case, drv):
     # get_state_probability
     for q, mres in zip(queries, gsp):
         try:
-            p = float(model.get_state_probability({vn[v]: s for v, s in q}))
+            p = float(model.get_state_probability({rb(vn[v]): rb(s) for v, s in q}))
             ir = (0, p)
         except ValueError:
             ir = (1, None)
@@ -1562,7 +1707,8 @@ def run_bn(case, drv):
             total += pr
         eps = float(TOL)
         lo, hi = (1 - eps) ** n, (1 + eps) ** n
-        if case["fault"] in ("none",) and case.get("backend") != "torch" and not rel_ok(total, 1.0):
+        exact_cols = all(sum(col) == 1 for d_ in case["cpds"] for col in zip(*case_rows(case, d_["rows"])))
+        if case["fault"] in ("none",) and case.get("backend") != "torch" and exact_cols and not rel_ok(total, 1.0):
             return bad("impl!=spec:joint-total", {"total": total})
         if not (lo - 1e-9 <= total <= hi + 1e-9):
             return bad("impl!=spec:joint-total-outside-tolerance", {"total": total, "bounds": [lo, hi]})
@@ -1618,7 +1764,7 @@ def run_wide(case, drv):
     rng.shuffle(perm)
     for inplace in (True, False):
         c2 = fresh()
-        r = call_impl(lambda: c2.reorder_parents([vn[u] for u in perm], inplace=inplace))
+        r = call_impl(lambda: c2.reorder_parents(rb([vn[u] for u in perm]), inplace=inplace))
         st, mr = drv.call_e("c05_reorder", [args, perm, inplace])
         if not same_outcome(r, st, mr):
             return bad("impl!=model:reorder-outcome(wide)", {"perm": perm})
@@ -1697,7 +1843,7 @@ def run_wide(case, drv):
     for t, X in enumerate(subsets[:4]):
         inplace = bool(t % 2)
         c2 = fresh()
-        r = call_impl(lambda: c2.marginalize([vn[u] for u in X], inplace=inplace))
+        r = call_impl(lambda: c2.marginalize(wrap(rb([vn[u] for u in X]), ["list", "tuple", "ndarray", "set"][len(X) % 4], vn), inplace=inplace))
         st, mr = drv.call_e("c05_marginalize", [args, X])
         if not same_outcome(r, st, mr):
             return bad("impl!=model:marginalize-outcome", {"X": X, "impl": r[0], "model": [st, mr if st == "err" else None]})
@@ -1966,15 +2112,17 @@ def run_session(case, drv):
                 ops.append(("reorder", o))
                 mops.append([0, o])
     replies = drv.call("c05_session", [args, mops])
-    obj = make_impl(N, 0, case["ccard"], rows, ev, pc, snd)
+    cont = [None, "tuple", "ndarray"][case["qseed"] % 3] if k >= 1 else None
+    obj = make_impl(N, 0, case["ccard"], rows, ev, pc, snd, cont=cont)
+    tags.append("ctor-containers=%s" % cont)
     last = None
     for step, ((kind, a), rep) in enumerate(zip(ops, replies)):
         if kind == "reorder":
-            r = call_impl(lambda: obj.reorder_parents([vn[u] for u in a], inplace=True))
+            r = call_impl(lambda: obj.reorder_parents(rb([vn[u] for u in a]), inplace=True))
         elif kind == "marginalize":
-            r = call_impl(lambda: obj.marginalize([vn[u] for u in a], inplace=True))
+            r = call_impl(lambda: obj.marginalize(wrap(rb([vn[u] for u in a]), ["tuple", "ndarray", "set", "list"][step % 4], vn), inplace=True))
         elif kind == "reduce":
-            r = call_impl(lambda: obj.reduce([(vn[u], s_) for u, s_ in a], inplace=True, show_warnings=bool(step % 2)))
+            r = call_impl(lambda: obj.reduce(wrap(rb([(vn[u], s_) for u, s_ in a]), ["tuple", "list"][step % 2]), inplace=True, show_warnings=bool(step % 2)))
         elif kind == "normalize":
             r = call_impl(lambda: obj.normalize(inplace=True))
         else:
@@ -2053,9 +2201,9 @@ def bn_compare(model, N, nodes, edges, specs, queries, drv, what):
     if ic != {a: b_ for a, b_ in cardl}:
         return bad("impl!=model:get_cardinality(session)", {"after": what, "impl": sorted(ic.items()), "model": cardl}), code
     for sp in specs:
-        if int(model.get_cardinality(vn[sp["v"]])) != sp["card"]:
+        if int(model.get_cardinality(rb(vn[sp["v"]]))) != sp["card"]:
             return bad("impl!=model:get_cardinality(node)(session)", {"after": what, "node": sp["v"]}), code
-        c = model.get_cpds(vn[sp["v"]])
+        c = model.get_cpds(rb(vn[sp["v"]]))
         f, e = impl_form(N, c)
         if e:
             return bad("impl-inconsistent:cpd(session)", {"after": what, "reason": e}), code
@@ -2065,7 +2213,7 @@ def bn_compare(model, N, nodes, edges, specs, queries, drv, what):
             return b, code
     for q, mres in zip(queries, gsp):
         try:
-            qd = {vn[v]: s_ for v, s_ in q}
+            qd = {rb(vn[v]): rb(s_) for v, s_ in q}
             qsnap = dict(qd)
             pr = float(model.get_state_probability(qd))
             if qd != qsnap:
